@@ -26,31 +26,64 @@ def mk_comp(c):
 
 
 def build(desc):
-    """Build the system of a description through the public API, in list order."""
+    """Build the system of a description through the public API, in list order.
+
+    `desc["_build"]` (optional, chosen by the generator so that replays are deterministic) varies the HISTORY by
+    which the same final structure is reached — the properties quantify over systems, not over ways to build them:
+      {"detour": {"x": leaf name, "decoy_parent": name}}  build without x but with a decoy leaf, solve once,
+                                                           delete the decoy, add x   (stale caches, index re-use)
+      {"phase_order": "comp_first" | "redefine"}           component phases before the system phases / system
+                                                           phases defined twice with different names
+    """
     comps = desc["comps"]
+    plan = desc.get("_build") or {}
+    det = plan.get("detour")
+    order = plan.get("phase_order", "normal")
     sys = None
-    with warnings.catch_warnings():
-        warnings.simplefilter("ignore")
-        for c in comps:
-            comp = mk_comp(c)
-            kw = {}
-            if c.get("group", ""):
-                kw["group"] = c["group"]
-            if c.get("rail", ""):
-                kw["rail"] = c["rail"]
-            if sys is None:
-                sys = System(desc.get("name", "sys"), comp, **kw)
-            elif c["kind"] == "source":
-                sys.add_source(comp, **kw)
-            else:
-                par = c["parents"]
-                sys.add_comp(par if (len(par) > 1 or c.get("plist")) else par[0],
-                             comp=comp, **kw)
-        if desc.get("phases"):
-            sys.set_sys_phases(dict(desc["phases"]))
-        for c in comps:
+
+    def add(c):
+        nonlocal sys
+        comp = mk_comp(c)
+        kw = {}
+        if c.get("group", ""):
+            kw["group"] = c["group"]
+        if c.get("rail", ""):
+            kw["rail"] = c["rail"]
+        if sys is None:
+            sys = System(desc.get("name", "sys"), comp, **kw)
+        elif c["kind"] == "source":
+            sys.add_source(comp, **kw)
+        else:
+            par = c["parents"]
+            sys.add_comp(par if (len(par) > 1 or c.get("plist")) else par[0], comp=comp, **kw)
+
+    def comp_phases(cs):
+        for c in cs:
             if c.get("pconf") is not None:
                 sys.set_comp_phases(c["name"], copy.deepcopy(c["pconf"]))
+
+    with warnings.catch_warnings():
+        warnings.simplefilter("ignore")
+        first = [c for c in comps if not (det and c["name"] == det["x"])]
+        for c in first:
+            add(c)
+        if det:
+            sys.add_comp(det["decoy_parent"], comp=ILoad("__decoy", ii=0.0123))
+        if order == "comp_first":
+            comp_phases(first)
+        elif order == "redefine" and desc.get("phases"):
+            sys.set_sys_phases({"__old1": 1.0, "__old2": 2.0})
+            comp_phases(first)
+        if desc.get("phases"):
+            sys.set_sys_phases(dict(desc["phases"]))
+        if order == "normal":
+            comp_phases(first)
+        if det:
+            quiet_call(sys.solve)
+            sys.del_comp("__decoy")
+            x = [c for c in comps if c["name"] == det["x"]][0]
+            add(x)
+            comp_phases([x])
     return sys
 
 
